@@ -57,7 +57,7 @@ func LoadWorld(dir string, patterns []string, extDir string, overlay map[string]
 		Fset:       fset,
 		BuildFlags: []string{"-tags=verif"},
 		Overlay:    overlay,
-		Env:        append(os.Environ(), "GOFLAGS=-mod=mod", "GOPROXY=off", "GOTOOLCHAIN=local"),
+		Env:        loaderEnv(),
 	}
 	pkgs, err := packages.Load(cfg, patterns...)
 	if err != nil {
@@ -119,6 +119,18 @@ func LoadWorld(dir string, patterns []string, extDir string, overlay map[string]
 		}
 	}
 	return w, nil
+}
+
+// loaderEnv: packages.Load must run the newer Go (the default go cannot type-check a go 1.25 module with x/tools v0.50).
+func loaderEnv() []string {
+	var env []string
+	for _, e := range os.Environ() {
+		if strings.HasPrefix(e, "PATH=") || strings.HasPrefix(e, "GOTOOLCHAIN=") || strings.HasPrefix(e, "GOFLAGS=") || strings.HasPrefix(e, "GOPROXY=") {
+			continue
+		}
+		env = append(env, e)
+	}
+	return append(env, "PATH=/opt/veriftools/go1.26.8/bin:"+os.Getenv("PATH"), "GOFLAGS=-mod=mod", "GOPROXY=off", "GOTOOLCHAIN=local")
 }
 
 var typeArgsRe = regexp.MustCompile(`\[[^\[\]]*\]`)
